@@ -135,7 +135,7 @@ fn short_loc(loc: &Location) -> String {
 }
 
 fn op_name(op: &Op) -> &'static str {
-    match op { Op::Lock(_) => "lock", Op::CondWait(_, _) => "wait", Op::Park => "park", Op::Recv(_) => "recv", Op::Join(_) => "join", Op::Yield(tag) => tag }
+    match op { Op::Lock(_) => "lock", Op::CondWait(_, _) => "wait", Op::Park => "park", Op::Recv(_) => "recv", Op::Join(_) => "join", Op::Yield(tag) => tag, Op::TryLock(_) => "trylock" }
 }
 
 impl Inner {
@@ -155,6 +155,7 @@ impl Inner {
                     None                            => false
                 }),
             Op::Yield(_)        => true,
+            Op::TryLock(_)      => true,
         }
     }
 
@@ -403,12 +404,20 @@ impl Runtime for &'static Sched {
         inner.mutex_name.insert(id, (name, class));
     }
 
-    fn mutex_acquired(&self, id: usize, _class: &'static str, _loc: &'static Location<'static>, _try_lock: bool) {
+    fn mutex_acquired(&self, id: usize, _class: &'static str, loc: &'static Location<'static>, try_lock: bool) {
         let me = self.me();
-        let mut inner = self.inner.lock().unwrap();
-        inner.holder.insert(id, me);
-        let name = inner.name_of_mutex(id).0;
-        inner.cur_locks.push(name);
+        let observed = {
+            let mut inner = self.inner.lock().unwrap();
+            inner.holder.insert(id, me);
+            let name = inner.name_of_mutex(id).0;
+            inner.cur_locks.push(name);
+            // Another thread is about to try_lock this mutex: try_lock observes whether somebody is inside a critical section, so the
+            // section is not atomic for that thread. The holder stops here (holding the mutex) and the observer may be run first.
+            let run = inner.run;
+            !try_lock && inner.threads.iter().enumerate().any(|(i, t)| i != me && t.run == run && !t.finished
+                && matches!(t.pending.as_ref(), Some((Op::TryLock(m), _)) if *m == id))
+        };
+        if observed { self.point(Op::Yield("holding"), loc); }
     }
 
     fn mutex_try_failed(&self, id: usize, _class: &'static str, _loc: &'static Location<'static>) {
